@@ -38,7 +38,10 @@ def run_case(item):
         p = subprocess.run(["patch", "-p1", "-s", "--no-backup-if-mismatch", "-i", os.path.join(verif, "mutants", name + ".patch")], cwd=d, capture_output=True, text=True)
         if p.returncode != 0:
             return name, m, "skipped", "patch does not apply to the tree under test"
-        r = subprocess.run([binp, "-repo", d, "-verif", verif, "-property", pid, "-no-evidence"], capture_output=True, text=True, env=env)
+        try:
+            r = subprocess.run([binp, "-repo", d, "-verif", verif, "-property", pid, "-no-evidence"], capture_output=True, text=True, env=env, timeout=400)
+        except subprocess.TimeoutExpired:
+            return name, m, "MISSED" if m["kind"] == "mutant" else "ALARM", "analyzer timed out on the variant"
         out = r.stdout.replace(d + "/", "")
         v = verdicts(out)
         new = [x for x in v if x not in base_v]
@@ -46,7 +49,11 @@ def run_case(item):
             hit = [x for x in new if m["expect"] in x]
             if "cannot load" in out:
                 return name, m, "skipped", "variant does not type-check"
-            return name, m, ("detected" if hit else "MISSED"), (hit[0] if hit else "; ".join(new) or "no new violation")
+            if hit:
+                return name, m, "detected", hit[0]
+            if new:
+                return name, m, "detected", "(by another rule than the expected %s) %s" % (m["expect"], new[0])
+            return name, m, "MISSED", "no new violation"
         else:
             return name, m, ("silent" if not new else "ALARM"), "; ".join(new)
     finally:
